@@ -459,12 +459,14 @@ where
         + LossyFrom<I9F23>
         + LossyFrom<U0F128>,
 {
-    //wraparound
-    while angle > PI {
+    //wraparound: the remainder has the sign of the angle and magnitude below 2*pi,
+    //so at most one correction step is left
+    angle %= T::lossy_from(TWO_PI);
+    if angle > PI {
         tick(6);
         angle -= T::lossy_from(TWO_PI);
     }
-    while angle < -PI {
+    if angle < -PI {
         tick(7);
         angle += T::lossy_from(TWO_PI);
     }
